@@ -54,6 +54,14 @@ def exhaustive_type_table(eng):
                         if res:
                             continue
                         leafs = [("L", gen.gen_leaf(r, kind)) for _ in range(6)]
+                        if kind == "time" and fl == 0x40:
+                            # the two ends of the wire range, the first instant of 1901-12-14 (Unix time i32::MIN + 1 s ...), leap seconds
+                            leafs += [("L", ("time", v)) for v in (gen.TIME_LO, gen.TIME_LO + 1, gen.TIME_HI, -2147483649, -2147483648, -2147483647, 1483228799, 1341100799, 2147483647)]
+                        if kind in ("ip4", "a4") and fl == 0x40:
+                            leafs += [("L", (kind, b)) for b in (b"\0\0\0\0", b"\xff\xff\xff\xff", b"\xaa\xaa\xaa\xaa")]
+                        if kind in ("u32", "i32", "en", "f32") and fl == 0x40:
+                            # repeated-octet patterns (00, AA, 55, FF ...): values like any other
+                            leafs += [("L", (kind, v if kind in ("u32", "f32") else (v - (1 << 32) if v >= (1 << 31) else v))) for v in (0, 0xaaaaaaaa, 0x55555555, 0xffffffff, 0x80000000, 0x7fc01234, 0xcdcdcdcd)]
                         if kind in ("a6", "ip6") and fl == 0x40:
                             leafs += [("L", (kind, b)) for b in gen.ipv6_special_forms()]
                         if kind in ("a4", "ip4") and fl == 0x40:
@@ -234,6 +242,10 @@ def leaf_patterns(rng, k, bits):
     for lane in range(bits // 8):
         for v in range(256):
             pats.add(v << (8 * lane))
+    for v in range(256):
+        pats.add(int.from_bytes(bytes([v]) * (bits // 8), "big"))          # the same octet throughout (00, AA, 55, CD, FF ...: fill patterns are values too)
+    if bits == 32:
+        pats |= {0x03aa7e7f, 0x03aa7e80, 0x03aa7e81, 0x83aa7e7f, 0x83aa7e80, 0x83aa7e81}      # Unix time i32::MIN, 0 as seconds since 1900
     r = rng.fork(f"pat{bits}")
     while len(pats) < k:
         pats.add(r.below(1 << bits))
